@@ -83,6 +83,7 @@ var c17Seeds = []string{
 	`{job="j"}`, `{}`, `{job=~".*", app!="x"}`, `{job="j"} |= "a" != "b" |~ "c" !~ "d"`, `{job="j"} |= ip("10.0.0.0/8") != ip("::1")`,
 	`{job="j"} | json`, `{job="j"} | json a, b`, `{job="j"} | json x="a.b[0].c", y="[\"k\"]"`, `{job="j"} | logfmt`, `{job="j"} | logfmt a, b="c"`, `{job="j"} | unpack`,
 	`{job="j"} | pattern "<a> - <b> [<_>] \"<m> <p>\" <s> <z>"`, `{job="j"} | regexp "(?P<a>\\S+) (?P<b>.*)"`, `{job="j"} | decolorize`,
+	`{job="j"} | regexp "(?P<a>zzz)?(?P<b>.*)"`, `{job="j"} | regexp "(?P<a>^GET)|(?P<b>POST)|(?P<c>.)"`, `{job="j"} | regexp "(?P<a>x)*(?P<b>y)?$"`, `{job="j"} | pattern "<a> <_> <b>" | regexp "(?P<a>nomatch)?"`,
 	`{job="j"} | line_format "{{ .app }} {{ __line__ }} {{ __timestamp__ | unixEpoch }}"`, `{job="j"} | label_format a=b, c="{{ .d | ToUpper }}"`,
 	`{job="j"} | line_format "{{ .status | int | add 1 }} {{ div 1 0 }} {{ .dur | duration }} {{ fromJson __line__ }}"`,
 	`{job="j"} | label_format x="{{ regexReplaceAll \"(\" .app \"\" }}{{ unixToTime .v }}{{ .size | bytes }}{{ b64dec .app }}{{ urldecode .app }}{{ toDate \"2006\" .v }}"`,
